@@ -65,6 +65,8 @@ MODELLED = {
     "clematis/engine/stages/t3/dialogue.py": ["_tokenize", "_truncate_to_tokens", "_first_speak_op", "speak", "llm_speak"],
     "clematis/engine/policy/sanitize.py": ["_strip_triple_fences", "parse_and_validate", "_coerce_bool"],
     "clematis/engine/orchestrator/core.py": ["_sanitize_utterance"],
+    "clematis/engine/stages/t3/bundle.py": ["cfg_caps", "assemble_bundle", "make_plan_bundle"],
+    "clematis/engine/stages/t3/core.py": ["t3_pipeline"],
 }
 TABLES = ["t3consts", "utterrules"]
 DRIVER_MODULES = ["HT3"]
@@ -793,6 +795,187 @@ class SpeakComp(Component):
 
     def shrink(self, case):
         return []
+
+
+# --------------------------------------------------------------------------
+# c13.assemble  (bundle-assembly entry points driven from a ctx: caps reach the planner)
+# --------------------------------------------------------------------------
+
+SLICE_KEYS = ["t1_iters", "t1_pops", "t2_k", "t3_ops", "quantum_ms", "wall_ms"]
+
+
+def _sb_class(case: dict) -> Any:
+    """classification of `ctx.slice_budgets` for the forwarded key `t3_ops` (mirrors nothing but Python's
+    truthiness / isinstance / `int()` primitives)"""
+    mode = case["sb_mode"]
+    if mode == "absent":
+        return "absent"
+    v = dec(case["sb"])
+    if not v:
+        return "absent"
+    if not isinstance(v, dict):
+        return "notDict"
+    if "t3_ops" not in v:
+        return "noKey"
+    x = v["t3_ops"]
+    if x is None:
+        return {"v": None}
+    try:
+        return {"v": int(x)}
+    except Exception:
+        return {"v": "bad"}
+
+
+class AssembleComp(Component):
+    """`assemble_bundle`, `make_plan_bundle` (both facades) and `t3_pipeline` called with a ctx object whose
+    `slice_budgets` / `t3.max_ops_per_turn` sit on every boundary; `deliberate` and `rag_once` then run on the
+    bundle the REAL assembler produced, and the caps monitor is evaluated against the budgets of the ctx."""
+    name = "c13.assemble"
+    budget = {"quick": 1500, "thorough": 40000, "search": 15000}
+    ENTRY = ("bundle.assemble_bundle", "bundle.make_plan_bundle", "legacy.make_plan_bundle", "t3_pipeline")
+
+    def gen(self, rng, i):
+        per_turn = rng.choice([0, 1, 1, 2, 2, 3, 3, 8, None, "2", -1])
+        pt = 3 if per_turn is None else int(per_turn)
+        r = rng.random()
+        if r < 0.12:
+            mode, sb = "absent", None
+        elif r < 0.22:
+            mode, sb = "value", rng.choice([None, {}, "x", 5, [1], 0])
+        else:
+            mode, sb = "value", {}
+            for k in SLICE_KEYS:
+                if rng.random() < (0.85 if k == "t3_ops" else 0.4):
+                    sb[k] = rng.choice([None, 0, 0, 1, 1, pt, pt + 1, pt - 1, 2, 5, -1, "2", "0", 2.0, 0.0, True, False, "x", NAN])
+        t3: dict = {"tokens": rng.choice([32, 1, 256]), "max_rag_loops": 1}
+        if per_turn is not None:
+            t3["max_ops_per_turn"] = per_turn
+        if rng.random() < 0.5:
+            t3["policy"] = {"tau_high": rng.choice([0.8, 0.6]), "tau_low": rng.choice([0.4, 0.2]), "epsilon_edit": rng.choice([0.1, 0.0, 0.6])}
+        t2c = {"k_retrieval": rng.choice([4, 1, 64]), "sim_threshold": 0.3, "owner_scope": rng.choice(["any", "agent", "team"])}
+        deltas = [{"id": rng.choice(["n1", "n2", "n3", "a", "b"]), "label": rng.choice(["L1", "L2", "x"]), "delta": rng.choice([0.5, 0.05, -0.7, 0.0])}
+                  for _ in range(rng.choice([0, 1, 3, 6]))]
+        s_max = rng.choice([0.1, 0.5, 0.9, 0.0, 0.4, 0.8, ulp_dn(0.4), NAN])
+        hits = [{"id": rng.choice(["m1", "m2"]), "score": rng.choice([0.6, 0.9, 0.1])} for _ in range(rng.choice([0, 1, 2]))]
+        return {"per_turn": per_turn, "sb_mode": mode, "sb": enc(sb), "t3": enc(t3), "t2": enc(t2c), "deltas": enc(deltas),
+                "s_max": enc(s_max), "hits": enc(hits), "cfg_ns": rng.random() < 0.25}
+
+    def _ctx(self, case):
+        t3, t2c = dec(case["t3"]), dec(case["t2"])
+        cfg: Any = SNS(t3=t3, t2=t2c) if case["cfg_ns"] else {"t3": t3, "t2": t2c}
+        ctx = SNS(now="2025-01-01T00:00:00+00:00", agent_id="A", turn_id=1, input_text="hello", cfg=cfg)
+        if case["sb_mode"] != "absent":
+            ctx.slice_budgets = dec(case["sb"])
+        s = dec(case["s_max"])
+        t1 = SNS(graph_deltas=dec(case["deltas"]), metrics={})
+        t2 = SNS(retrieved=[], metrics={"sim_stats": {"mean": 0.0, "max": s}, "k_returned": 0})
+        return ctx, t1, t2
+
+    @guarded
+    def impl(self, case):
+        from clematis.engine.stages.t3 import bundle as B, legacy as Lg, core as C
+        from clematis.engine.stages.t3.policy import deliberate
+        from clematis.engine.stages.t3.legacy import rag_once
+        hits = dec(case["hits"])
+        per = {}
+        for name in self.ENTRY:
+            ctx, t1, t2 = self._ctx(case)
+            before = snap(getattr(ctx, "slice_budgets", None))
+            steps = None
+            if name == "bundle.assemble_bundle":
+                b = B.assemble_bundle(ctx, {}, t1, t2)
+            elif name == "bundle.make_plan_bundle":
+                b = B.make_plan_bundle(ctx, {}, t1, t2)
+            elif name == "legacy.make_plan_bundle":
+                b = Lg.make_plan_bundle(ctx, {}, t1, t2)
+            else:
+                b, m = C.t3_pipeline(ctx, SNS(logs=[]), t1, t2)
+                steps = m.get("steps")
+            plan = deliberate(b)
+            refined, _ = rag_once(b, plan, lambda payload: {"retrieved": [dict(h) for h in hits]})
+            per[name] = {"bundle": b, "slice_caps": dict(b.get("slice_caps", {})), "ops": ops_canon(plan.ops),
+                         "rag": ops_canon(refined.ops), "steps": steps, "ctx_pure": snap(getattr(ctx, "slice_budgets", None)) == before}
+        first = per[self.ENTRY[0]]
+        sc = first["slice_caps"].get("t3_ops")
+        return {"out": {"slice": sc if (sc is None or (isinstance(sc, int) and not isinstance(sc, bool))) else repr(sc),
+                        "ops": first["ops"], "rag": first["rag"]},
+                "bundle": enc(first["bundle"]), "slice_caps": first["slice_caps"],
+                "agree": all(snap(per[n]["bundle"]) == snap(first["bundle"]) for n in self.ENTRY),
+                "steps": per["t3_pipeline"]["steps"], "ctx_pure": all(per[n]["ctx_pure"] for n in self.ENTRY)}
+
+    def _common(self, case):
+        pt = case["per_turn"]
+        return {"perTurn": None if pt is None else int(pt), "sb": _sb_class(case)}
+
+    @safe_request
+    def request(self, case):
+        io = self.impl(case)
+        return dict(self._common(case), c="c13.assemble", bundle=model_bundle(dec(io["bundle"])),
+                    hits=[{"id": cps(str(h["id"])), "score": f2b(float(h["score"]))} for h in dec(case["hits"])])
+
+    def compare(self, case, impl_out, model_out):
+        if isinstance(impl_out, dict) and "out" in impl_out:
+            impl_out = impl_out["out"]
+        return super().compare(case, impl_out, model_out)
+
+    def monitor_requests(self, case, io):
+        if raised(io):
+            return []
+        base = dict(self._common(case), c="c13.assemble.mon")
+        return [("plan_within_requested_cap", dict(base, ops=io["out"]["ops"])),
+                ("refined_plan_within_requested_cap", dict(base, ops=io["out"]["rag"]))]
+
+    def _cap(self, case):
+        pt = 3 if case["per_turn"] is None else int(case["per_turn"])
+        c = _sb_class(case)
+        if isinstance(c, dict) and isinstance(c["v"], int):
+            return max(0, min(pt, c["v"]))
+        return max(0, pt)
+
+    def monitors(self, case, io):
+        if raised(io):
+            return RAISED_MON
+        cap = self._cap(case)
+        sb = dec(case["sb"]) if case["sb_mode"] != "absent" else None
+        fwd_ok = True
+        for k, v in io["slice_caps"].items():
+            try:
+                fwd_ok = fwd_ok and isinstance(sb, dict) and k in sb and v == int(sb[k])
+            except Exception:
+                fwd_ok = False
+        return [("ops_le_requested_cap", len(io["out"]["ops"]) <= cap, f"{len(io['out']['ops'])} ops from a ctx asking for cap {cap} "
+                 f"(per-turn {case['per_turn']}, slice budgets {sb!r}); slice_caps={io['slice_caps']}"),
+                ("refined_ops_le_requested_cap", len(io["out"]["rag"]) <= cap, f"{len(io['out']['rag'])} refined ops, cap {cap}"),
+                ("pipeline_steps_le_requested_cap", isinstance(io["steps"], int) and io["steps"] <= cap and io["steps"] == len(io["out"]["ops"]),
+                 f"t3_pipeline reports {io['steps']} steps, cap {cap}, deliberate gives {len(io['out']['ops'])} ops"),
+                ("slice_caps_are_the_budgets", fwd_ok, f"slice_caps {io['slice_caps']} vs budgets {sb!r}"),
+                ("entry_points_agree", io["agree"], "the bundle-assembly entry points built different bundles from the same ctx"),
+                ("ctx_not_mutated", io["ctx_pure"], "assembly mutated ctx.slice_budgets")]
+
+    def tags(self, case, io):
+        if raised(io):
+            return ["raised"]
+        c = _sb_class(case)
+        t = {"sb:" + (c if isinstance(c, str) else ("none" if c["v"] is None else "bad" if c["v"] == "bad" else
+                                                    "zero" if c["v"] == 0 else "neg" if c["v"] < 0 else "pos"))}
+        pt = 3 if case["per_turn"] is None else int(case["per_turn"])
+        if isinstance(c, dict) and isinstance(c["v"], int):
+            t.add("slice_lt_turn" if c["v"] < pt else "slice_eq_turn" if c["v"] == pt else "slice_gt_turn")
+        t.add(f"ops:{len(io['out']['ops'])}")
+        return sorted(t)
+
+    def shrink(self, case):
+        sb = case["sb"]
+        if isinstance(sb, dict):
+            for k in list(sb):
+                if k != "t3_ops":
+                    c = copy.deepcopy(case)
+                    del c["sb"][k]
+                    yield c
+        for i in range(len(case["deltas"])):
+            c = copy.deepcopy(case)
+            del c["deltas"][i]
+            yield c
 
 
 # --------------------------------------------------------------------------
@@ -1552,8 +1735,9 @@ class TurnComp(Component):
         return sorted(t)
 
 
-DELIB, RAG, SPEAK, LINE, SANITIZE, TURN = DelibComp(), RagComp(), SpeakComp(), LineComp(), SanitizeComp(), TurnComp()
-COMPONENTS = [DELIB, RAG, SPEAK, LINE, SANITIZE, TURN]
+DELIB, RAG, SPEAK, LINE, SANITIZE, TURN, ASSEMBLE = (DelibComp(), RagComp(), SpeakComp(), LineComp(), SanitizeComp(), TurnComp(),
+                                                    AssembleComp())
+COMPONENTS = [DELIB, RAG, ASSEMBLE, SPEAK, LINE, SANITIZE, TURN]
 
 
 def REPO_PATH():
